@@ -34,7 +34,8 @@ Has(r, f) == f \in DOMAIN r
 RECURSIVE Match(_, _)
 Match(e, g) ==
   IF e.t \in {"void", "opaque", "undef"} THEN TRUE
-  ELSE CASE e.t # g.t -> FALSE
+  ELSE CASE e.t = "proc" -> g.t \in {"proc", "kont"}       \* builtin procedures (closures and continuations are opaque)
+         [] e.t # g.t -> FALSE
          [] e.t \in {"int", "bool", "char", "str"} -> e.v = g.v
          [] e.t = "num" -> e.s = g.s
          [] e.t = "sym" -> IF Has(e, "n") THEN Has(g, "n") /\ e.n = g.n ELSE Has(g, "v") /\ e.v = g.v
